@@ -1,4 +1,5 @@
 import RexModel.Compiled.Schedule
+import RexModel.Compiled.Ring
 import RexModel.Gen.Compiled
 
 /-! # C08 — input windows read exactly the scheduled messages from the output buffers
@@ -68,6 +69,36 @@ theorem masked_write_noop (i : Inst) (p g : Nat) (c : Cell) (hc : c ∈ cellsAt 
 
 /-- the ring of the replay uses the extracted slot function -/
 theorem slotOf_eq_kernel (seq : Int) (size : Nat) : slotOf seq size = (buf_write_idx seq size).toNat := rfl
+
+/-! ## Refinement of the ring to "the message with that sequence number", for every history of writes
+
+`Rex.Sched.Ring` is the buffer the replay executes. `Ring.SlotInv` (each slot holds the *latest* written sequence
+number of its residue class, or still the default) is preserved by every write (`Ring.slotInv_writes`, induction over
+the number of writes, any buffer size, any first sequence number). -/
+
+/-- after any number `k` of consecutive writes `a … a+k-1` into a ring of any size `B`, a read of a written sequence
+number among the last `B` returns exactly that message -/
+theorem C08_ring_reads_live_message (B : Nat) (hB : 0 < B) (a : Int) (k : Nat) (q : Int) (strict : Bool)
+    (h0 : 0 ≤ q) (hq : a ≤ q) (hlt : q < a + k) (hlive : a + k ≤ q + B) :
+    ((Ring.init B).writes a k).readOk strict q = true := Ring.read_live B hB a k q strict h0 hq hlt hlive
+
+/-- the bound is exact: one message older and the slot holds a newer message (so an undersized buffer is reported) -/
+theorem C08_ring_stale_not_read (B : Nat) (hB : 0 < B) (a : Int) (k : Nat) (q : Int) (strict : Bool)
+    (hq : a ≤ q) (hstale : q + B < a + k) :
+    ((Ring.init B).writes a k).readOk strict q = false := Ring.read_stale B hB a k q strict hq hstale
+
+/-- a window entry without a message (sequence number -1) reads the default output exactly while fewer than `B`
+messages were written -/
+theorem C08_default_until_full (B : Nat) (hB : 0 < B) (k : Nat) (strict : Bool) :
+    ((Ring.init B).writes 0 k).readOk strict (-1) = decide (k < B) := Ring.read_default B hB k strict
+
+/-- the same on the replay's own state: `writeAll` moves the ring of a kind by that kind's writes only
+(`writeAll_kind`), so a kind that wrote consecutive sequence numbers serves every live read -/
+theorem C08_replay_read_live (sizes : List Nat) (cs : List Cell) (κ B : Nat) (hB : 0 < B) (hsz : sizes[κ]? = some B)
+    (a : Int) (k : Nat) (hcons : seqsOf κ cs = consec a k) (q : Int) (strict : Bool)
+    (h0 : 0 ≤ q) (hq : a ≤ q) (hlt : q < a + k) (hlive : a + k ≤ q + B) :
+    ∃ r, (writeAll (sizes.map Ring.init) cs)[κ]? = some r ∧ r.readOk strict q = true :=
+  replay_read_live sizes cs κ B hB hsz a k hcons q strict h0 hq hlt hlive
 
 /-- the ring really is tight: with one slot less than the number of live messages a read returns a *newer* message -/
 example : ((((Ring.init 2).write 0).write 1).write 2).readOk true 0 = false := by decide
